@@ -71,7 +71,9 @@ def drive(tier):
         ts = []
         for _ in range(3):
             for spk in scripts(gen.rbytes(r, 20), gen.rbytes(r, 32)):
-                ts.append(str(CBitcoinAddress.from_scriptPubKey(CScript(spk))))
+                kk_, t_ = call(lambda: str(CBitcoinAddress.from_scriptPubKey(CScript(spk))))
+                if kk_ == "ret" and isinstance(t_, str):
+                    ts.append(t_)
         ts.append(str(CBitcoinSecret.from_secret_bytes(gen.rbytes(r, 32))))          # a WIF string is not an address
         ts.append(str(CBitcoinSecret.from_secret_bytes(gen.rbytes(r, 32), False)))
         hrp = bitcoin.params.BECH32_HRP
@@ -86,6 +88,8 @@ def drive(tier):
         corpus[ch] = ts
     junk = ["", " ", "1", "bc1", "tb1", "bc1q", "bcrt1q", "0", "l", "O", "é", "\x7f", "x" * 100, "1" * 34, "3" * 34, "bc1" + "q" * 38,
             "11111111111111111111111111111111111", "bc1qw508d6qejxtdg4y5r3zarvary0c5xw7kv8f3t4 ", " bc1qw508d6qejxtdg4y5r3zarvary0c5xw7kv8f3t4"]
+    pool20 = [gen.rbytes(r, 20) for _ in range(2)]
+    pool32 = [gen.rbytes(r, 32) for _ in range(2)]
     nhist = 12 if tier == "quick" else 150
     for h in range(nhist):
         tid = R.new_tid()
@@ -97,7 +101,7 @@ def drive(tier):
             select(tid, k, name)
             cur = bitcoin.params.NAME
             h20, h32 = gen.rbytes(r, 20), gen.rbytes(r, 32)
-            for spk in scripts(h20, h32):
+            for spk in scripts(h20, h32) + scripts(r.choice(pool20), r.choice(pool32)):     # fresh payloads and recurring ones
                 k += 1
                 roundtrip(tid, k, spk)
             # non-standard scripts must be refused by the script -> address conversion
